@@ -36,10 +36,12 @@ A = {"type": "record", "name": "A", "fields": [{"name": "x", "type": "int"}]}
 B = {"type": "record", "name": "B", "fields": [{"name": "x", "type": "int"}, {"name": "y", "type": "string", "default": "dy"}]}
 C = {"type": "record", "name": "C", "fields": [{"name": "y", "type": "string", "default": "dy"}, {"name": "z", "type": "int", "default": 0}]}
 ZA = {"type": "record", "name": "ZA", "fields": [{"name": "x", "type": "int"}]}  # its name ends with "A": a hint must match names exactly
+LB = {"type": "record", "name": "Labelled", "fields": [{"name": "label", "type": "string", "default": "none"}]}
+LN = {"type": "record", "name": "MaybeLabelled", "fields": [{"name": "label", "type": ["null", "string"], "default": None}]}
 A2 = {"type": "record", "name": "A2", "fields": [{"name": "x", "type": "int"}]}  # same shape as A: only a hint tells them apart
 POOL = [
     "null", "boolean", "int", "long", "float", "double", "string", "bytes", family.E(), family.E2(), family.F(), {"type": "array", "items": "int"},
-    {"type": "map", "values": "int"}, A, B, C, {"type": "int", "logicalType": "date"}, {"type": "double", "unit": "metres"}, A2, ZA,
+    {"type": "map", "values": "int"}, A, B, C, {"type": "int", "logicalType": "date"}, {"type": "double", "unit": "metres"}, A2, ZA, LB, LN,
 ]
 
 
@@ -68,7 +70,7 @@ def unions(tier):
                 out.append(copy.deepcopy(bs))
     else:
         # quick: the triples made of records / float-double / named mixes only
-        core = [POOL[i] for i in (0, 4, 5, 6, 8, 9, 13, 14, 15, 17, 18, 19)]
+        core = [POOL[i] for i in (0, 5, 13, 14, 15, 18, 19, 20, 21)]
         for tr in itertools.permutations(range(len(core)), 3):
             bs = [core[i] for i in tr]
             if legal(bs) and sum(1 for b in bs if isinstance(b, dict) and b.get("type") == "record") >= 2:
@@ -129,14 +131,17 @@ def ambiguous(u):
                 if f["name"] not in fnames:
                     fnames.append(f["name"])
                     ftype[f["name"]] = f["type"]
-        base = {"int": 1, "string": "s"}
+        def bv(t):
+            return {"int": 1, "string": "s"}.get(t if isinstance(t, str) else None, "s" if isinstance(t, list) else 1)
+
         for n in range(len(fnames) + 1):
             for sub in itertools.combinations(fnames, n):
-                out.append({k: base[ftype[k]] for k in sub})
+                out.append({k: bv(ftype[k]) for k in sub})
         for r in recs:
-            d = {f["name"]: base[f["type"]] for f in r["fields"]}
+            d = {f["name"]: bv(f["type"]) for f in r["fields"]}
             out.append(dict(d, **{"-type": r["name"]}))
         out.append({"x": 1, "-type": "Unknown"})
+    out += [{"label": None}, {"label": "x"}, {"label": None, "-type": "MaybeLabelled"}, ("MaybeLabelled", {"label": None}), ("Labelled", {"label": "y"})]
     out += [("A", {"x": 1}), ("ZA", {"x": 1}), ("Nope", {"x": 1}), ("E", "B"), ("E2", "B"), ("Nope", "B")]
     out += [5, 1.5, 1, b"ab", "A", "B", "Z", None, True, [1], {"k": 1}, {}, datetime.date(2020, 2, 29), ("Unknown", 1), ("int", 7), ("double", 2.5), ("float", 2.5)]
     return out
@@ -326,9 +331,9 @@ def run_unit(i, tier):
             # hints must use full names in this context
             fixed = []
             for d in udata:
-                if isinstance(d, tuple) and len(d) == 2 and d[0] in ("A", "B", "C", "E", "E2", "F", "A2", "ZA"):
+                if isinstance(d, tuple) and len(d) == 2 and d[0] in ("A", "B", "C", "E", "E2", "F", "A2", "ZA", "Labelled", "MaybeLabelled"):
                     fixed.append(("nsw." + d[0], d[1]))
-                if isinstance(d, dict) and d.get("-type") in ("A", "B", "C", "A2", "ZA"):
+                if isinstance(d, dict) and d.get("-type") in ("A", "B", "C", "A2", "ZA", "Labelled", "MaybeLabelled"):
                     fixed.append(dict(d, **{"-type": "nsw." + d["-type"]}))
                 fixed.append(d)
             data = [dict(base, u=d) for d in fixed]
